@@ -32,6 +32,7 @@ func init() {
 	vfRegister("VerifC12_rfc9218", VerifC12_rfc9218)
 	vfRegister("VerifC12_rfc7540", VerifC12_rfc7540)
 	vfRegister("VerifC12_rfc7540tree", VerifC12_rfc7540tree)
+	vfRegister("VerifC12_rfc7540walk", VerifC12_rfc7540walk)
 }
 
 const (
@@ -669,6 +670,77 @@ func VerifC12_rfc7540tree() {
 	m.reachSplit()
 	m.reachCloseQueued()
 	m.reachCommon()
+}
+
+// c12needSort mirrors walkReadyInOrder's test for its "uncommon case": the kids of n do not all have the same weight.
+func c12needSort(n *priorityNodeRFC7540) bool {
+	if n.kids == nil {
+		return false
+	}
+	for k := n.kids.next; k != nil; k = k.next {
+		if k.weight != n.kids.weight {
+			return true
+		}
+	}
+	return false
+}
+
+// Priority-tree WALK of the RFC 7540 scheduler (shape B): every priority forest over 4 streams is built through
+// the real API (stream i depends on the root or on any earlier stream; every weight is the default or 200, so
+// that siblings with equal and with different weights occur at every level, including nested sorted levels
+// that share the scheduler's scratch slice); every stream is open with nothing queued, open with one DATA
+// frame queued, or (thorough) an idle grouping node. Then one Pop where every stream window is open or closed
+// (symbolic) and a full drain: work conservation ("Pop reports a frame whenever some queued frame is
+// sendable") and exactly-once delivery must hold for every tree shape, wherever the sendable frame sits.
+// Confirmed with seeded change C12-B (final loop of walkReadyInOrder ranging over the shared scratch slice).
+func VerifC12_rfc7540walk() {
+	n := 4
+	var pc *PriorityWriteSchedulerConfig
+	kinds := 2 // open without frames, open with a DATA frame
+	if vfTier() > 0 {
+		pc = c12cfgs7540[2*vfChoice("cfg", 2)] // default, or small retention + write throttling
+		kinds = 3                              // + idle grouping node (created by AdjustStream, never opened)
+	}
+	cfg := c12cfg{kind: c12RFC7540, nstreams: n, k: 0, dataLens: []int{2}, inOrder: true, det: true,
+		noCtl: true, noHdr: true, boolWin: true, weights: []uint8{priorityDefaultWeightRFC7540, 200}}
+	m := c12new(cfg, NewPriorityWriteScheduler(pc))
+	ws := m.ws.(*priorityWriteSchedulerRFC7540)
+	for i := 0; i < n; i++ {
+		s := m.ss[i]
+		kind := vfChoice("node-kind", kinds)
+		if kind != 2 {
+			m.do(c12op{c12OpOpen, i, 0})
+		}
+		dep := uint32(0)
+		if d := vfChoice("parent", i+1); d > 0 {
+			dep = m.ss[d-1].id
+		}
+		pp := PriorityParam{StreamDep: dep, Weight: m.weights[vfChoice("weight", len(m.weights))]}
+		p := vfExpectPanic(func() { m.ws.AdjustStream(s.id, pp) })
+		m.assert(!p, "AdjustStream must not panic")
+		if nd := ws.nodes[s.id]; nd != nil && ws.nodes[dep] != nil {
+			m.assert(nd.parent == ws.nodes[dep] && nd.weight == pp.Weight, "AdjustStream links the node below its new parent with the new weight")
+		}
+		if kind == 1 {
+			m.do(c12op{c12OpData, i, 2})
+		}
+	}
+	nested := false
+	for _, s := range m.ss {
+		if nd := ws.nodes[s.id]; nd != nil && nd.parent != nil && c12needSort(nd) && c12needSort(nd.parent) {
+			nested = true
+		}
+	}
+	m.do(c12op{c12OpPop, 0, 0})
+	m.drain()
+	if nested {
+		vfReach("nested-sorted-levels")
+	}
+	if c12needSort(&ws.root) {
+		vfReach("sorted-root-level")
+	}
+	m.reachPops()
+	vfReach("end")
 }
 
 // Shape I for FrameWriteRequest.Consume / writeQueue.consume: arbitrary windows, one call.
